@@ -50,8 +50,8 @@ var c12LongLens = []int{99, 100, 101}
 const c12Bound = 90 * time.Second
 
 func runC12(r *mon.Run, replay string) {
-	r.Rule("each case: a chainlab fork tree (regime mix/v1only/v2only, trunk ending before/at/after the allow and require heights), 2..6 real syncer nodes each preloaded with one branch (fork depth 0..10 below the trunk tip, branch length from {0,1,2,9,10,11,12,16,24,40} plus {99,100,101} for the winner in some cases, optional v2-checkpoint bootstrap), exactly one branch sufficiently heavier than all others, connected as line/star/ring/complete in PRNG order and direction with peer caps 1/2/8, MaxSendBlocks 100/7/1, optional discovery and schedule jitter. Non-trivial = at least one node had to reorg or extend to reach the winner; signature = regime/topology/n/branch shape.")
-	r.Assume("tips are re-announced every 200 ms (outline of the tip for v2 blocks, header otherwise) and missing topology edges are re-dialled every second, like the repository's own `synced` test helper does; convergence bound 90 s wall clock")
+	r.Rule("each case: a chainlab fork tree (regime mix/v1only/v2only, PRNG initial target, trunk ending before/at/after the allow and require heights), 2..6 real syncer nodes each preloaded with one branch (fork depth 0..10 below the trunk tip, branch length from {0,1,2,9,10,11,12,16,24,40}), exactly one branch made sufficiently heavier than all others, connected as line/star/ring/complete in PRNG order and direction with peer caps 1/2/8, optional discovery and schedule jitter. Every tenth case each: the winner's branch sweeps the 100-block request split (99/100/101, +100/+200 in thorough); a long trunk above the require height with nodes bootstrapped from a v2 checkpoint; nodes serving at most 7 or 1 blocks per request (WithMaxSendBlocks); a freshly checkpoint-initialised node 3..40 blocks behind full nodes. Non-trivial = at least one node had to reorg or extend to reach the winner; signature = regime/topology/n/cap/trunk/branch shapes.")
+	r.Assume("tips are re-announced every 200 ms (outline of the tip for v2 blocks, header otherwise) like the repository's own `synced` test helper does, and missing topology edges are re-dialled every second (not in the fresh-checkpoint clusters, where an honest node dropping an honest peer is what is observed); convergence bound 90 s wall clock (unchanged tree: 1-5 s)")
 	r.Assume("checkpoint-bootstrapped nodes are only used when every fork point lies at least 2*maxBranchLen+10 blocks above the checkpoint (below it a checkpoint node legitimately cannot serve or reorg)")
 	r.Assume("loopback TCP; core/consensus is the trusted oracle labelling every generated block")
 
@@ -365,6 +365,11 @@ func runCluster(r *mon.Run, stream uint64, special string) {
 		time.Sleep(time.Duration(rng.IntN(30)) * time.Millisecond)
 		if err := nodes[e[0]].Connect(nodes[e[1]].Addr); err != nil {
 			r.Count("initial_connect_errors", 1)
+			msg := err.Error()
+			if i := strings.LastIndex(msg, ": "); i >= 0 {
+				msg = msg[i+2:]
+			}
+			r.Count("initial_connect_error:"+msg, 1)
 		}
 	}
 	start := time.Now()
